@@ -94,6 +94,12 @@ class ConcreteCtx(CCtx):
     def fact(self, f):
         pass
 
+    def lemma(self, name, clause, then=None, level="property"):
+        return None
+
+    def apply_lemma(self, name, nvars, body, instances, kinds=None):
+        return None
+
 
 def _pf(x):
     if isinstance(x, str):
@@ -108,10 +114,15 @@ class RandomCtx(ConcreteCtx):
         self.con = con
         self.log = {}
 
+    def _rr(self):
+        r = dict(self.con.dim_ranges)
+        r.update(getattr(self.con, "rand_ranges", {}))
+        return r
+
     def dim(self, name, lo=0, hi=None):
         if name in self.log:
             return self.log[name]
-        a, b = self.con.dim_ranges.get(name, (max(lo, 0), max(lo, 0) + 3))
+        a, b = self._rr().get(name, (max(lo, 0), max(lo, 0) + 3))
         a = max(a, lo)
         if hi is not None:
             b = min(b, hi)
@@ -122,7 +133,7 @@ class RandomCtx(ConcreteCtx):
     def int(self, name, lo=None, hi=None):
         if name in self.log:
             return self.log[name]
-        a, b = self.con.dim_ranges.get(name, (lo if lo is not None else -3, (lo if lo is not None else -3) + 6))
+        a, b = self._rr().get(name, (lo if lo is not None else -3, (lo if lo is not None else -3) + 6))
         if lo is not None:
             a = max(a, lo)
         if hi is not None:
@@ -134,7 +145,7 @@ class RandomCtx(ConcreteCtx):
     def real(self, name, nan_ok=False, inf_ok=False):
         if name in self.log:
             return self.log[name]
-        a, b = self.con.dim_ranges.get(name, (0.25, 4.0))
+        a, b = self._rr().get(name, (0.25, 4.0))
         v = round(self.rng.uniform(a, b), 3)
         self.log[name] = v
         return v
@@ -149,7 +160,7 @@ class RandomCtx(ConcreteCtx):
         n = 1
         for d in shape:
             n *= d
-        rg = self.con.dim_ranges.get(name)
+        rg = self._rr().get(name)
         if dtype == FLOAT:
             a, b = rg if rg else ((lo if lo is not None else -4.0), (hi if hi is not None else 12.0))
             grid = self.rng.random() < 0.5
@@ -309,6 +320,8 @@ def replay_file(path):
             ok, wit = eval_clause(cl)
             if ok is not True:
                 bad.append((name, ok, wit))
+        if not obl.split("/", 1)[-1].startswith("FULL/") and "/FULL/" not in obl:
+            bad = [b for b in bad if not b[0].startswith("FULL/")]
         for name, ok, wit in bad:
             print("REPLAY: clause %s evaluates to %s on the real output (witness index %s)" % (name, ok, wit))
         hit = [b for b in bad if b[0] in obl or obl.endswith(b[0])]
@@ -412,6 +425,91 @@ def crosscheck(prop, seed, n_each=6):
     return res
 
 
+def clause_failures(con, c, args, case):
+    """Run the real function on concrete args and evaluate every contract clause."""
+    real_args = {k: to_real(v) for k, v in args.items()}
+    try:
+        out = real_call(con, real_args)
+    except Exception as e:
+        if con.level == "property" and con.total and con.allowed_exception(c, PyExc(type(e).__name__, e.args), **args) is not True:
+            return [("total(no %s)" % type(e).__name__, False, None)]
+        return []
+    result = from_real(out)
+    args_after = {k: from_real(v) for k, v in real_args.items()}
+    sp = con.spec(c, **args)
+    clauses = []
+    if sp is not NotImplemented:
+        clauses.extend(equal_clauses("post", result, sp))
+    clauses.extend(_named(con.ensures(c, result, **args)))
+    if con.pure:
+        for k in args:
+            if isinstance(args[k], STensor) and k not in getattr(con, "modifies", ()):
+                clauses.extend(equal_clauses("frame/%s-unmodified" % k, args_after[k], args[k]))
+    bad = []
+    for name, cl in clauses:
+        if name.startswith("FULL/"):
+            continue
+        if not (con.level == "property" or name.startswith("PL/")):
+            continue  # helper-level clauses: contract drift is not a property violation
+        ok, wit = eval_clause(cl)
+        if ok is False:
+            bad.append((name, ok, wit))
+    return bad
+
+
+def random_search(prop, targets, seed, n_each, outdir):
+    """Counterexample search of last resort: random small concrete inputs run through the REAL
+    function; every clause of its contract is evaluated on the real output.  A failing clause
+    is a replayable failing input by construction."""
+    _shim()
+    from .main import load_contracts
+
+    load_contracts()
+    V.TOL[0] = 1e-4
+    rng = random.Random(seed)
+    found = []
+    os.makedirs(outdir, exist_ok=True)
+    for target in targets:
+        con = REGISTRY.get(target)
+        if con is None:
+            continue
+        tries = 0
+        done = 0
+        hit = False
+        while done < n_each and tries < n_each * 6 and not hit:
+            tries += 1
+            case = rng.choice(list(con.cases))
+            c = RandomCtx(rng, con)
+            c.path.enter()
+            try:
+                try:
+                    args = con.inputs(c, case)
+                    ok = all(eval_clause(cond)[0] is True for _, cond in _named(con.requires(c, **args)))
+                except (PathAbort, PyExc):
+                    ok = False
+                if not ok:
+                    continue
+                done += 1
+                try:
+                    bad = clause_failures(con, c, args, case)
+                except Exception:
+                    continue
+                if bad:
+                    name = "%s%s/%s" % (target, "" if case is None else "[%s]" % case, bad[0][0])
+                    rec = {"property": prop, "target": target, "case": case, "obligation": name, "status": "failed",
+                           "backend": "random search on the real code", "solver_output": "clause %s is False at index %s" % (bad[0][0], bad[0][2]),
+                           "inputs": c.log, "found_by": "random concrete search (seed %d)" % seed}
+                    import re as _re
+
+                    path = os.path.join(outdir, _re.sub(r"[^A-Za-z0-9_.\-\[\]]+", "_", name)[:170] + ".rnd.json")
+                    json.dump(rec, open(path, "w"), indent=1, default=str)
+                    found.append({"target": target, "obligation": name, "replay": path})
+                    hit = True
+            finally:
+                c.path.leave()
+    return found
+
+
 def _short(x):
     s = repr(x)
     return s if len(s) < 600 else s[:600] + "..."
@@ -421,6 +519,10 @@ if __name__ == "__main__":
     cmd = sys.argv[1]
     if cmd == "replay":
         sys.exit(replay_file(sys.argv[2]))
+    if cmd == "randsearch":
+        out = random_search(sys.argv[2], sys.argv[3].split(","), int(sys.argv[4]), int(sys.argv[5]), sys.argv[6])
+        print(json.dumps(out, default=str))
+        sys.exit(0)
     if cmd == "crosscheck":
         out = crosscheck(sys.argv[2], int(sys.argv[3]), int(sys.argv[4]) if len(sys.argv) > 4 else 6)
         print(json.dumps(out, default=str))
